@@ -138,41 +138,73 @@ def r09_3(ctx: Ctx) -> None:
     ctx.check(ok, "R09.3", ck, ck.node, "_check decodes every accumulated member", "_check does not decode every accumulated member", construct="_check loop")
 
 
+def _selection_expr(ctx: Ctx, f: Func, atom: ast.AST):
+    """(expression, comprehension) of the folder-selection predicate behind `atom`: the atom itself, or the single return expression of a
+    helper method it calls (inlined)."""
+    def comp_in(e):
+        for x in ast.walk(e):
+            if isinstance(x, (ast.ListComp, ast.GeneratorExp)) and "target_filepath" in norm(x):
+                return x
+        return None
+    c = comp_in(atom)
+    if c is not None:
+        return atom, c
+    if isinstance(atom, ast.Call):
+        for tq in shared.targets_of(ctx, f, atom):
+            g = ctx.res._func_by_q(tq)
+            if g is None:
+                continue
+            rets = [n for n in walk(g.node) if isinstance(n, ast.Return) and n.value is not None]
+            if len(rets) == 1:
+                c = comp_in(rets[0].value)
+                if c is not None:
+                    return rets[0].value, c
+    return None, None
+
+
 def r09_4(ctx: Ctx) -> None:
     """folder skip predicate: 'no member of the folder is selected' (truth-table over a two-member folder)."""
     f = ctx.prog.func("py7zr", "Worker.extract")
-    tests = []
-    for n in walk(f.node):
-        if isinstance(n, ast.If) and any(isinstance(x, ast.Continue) for x in n.body) and "target_filepath" in norm(n.test):
-            tests.append(n)
-    ctx.floor("R09.4", len(tests), 2, "folder-skip tests (sequential and parallel branch)")
-    for t in tests:
-        facts = [(norm(cd), pol) for cd, pol in q.facts_at(f, t)]
-        ctx.check(("skip_notarget", True) in facts, "R09.4", f, t, "folder skip only when skipping is allowed", "a folder can be skipped although skip_notarget is False")
-        # evaluate the predicate for the 4 combinations (selected / not selected) of a two-member folder
-        comp = next((x for x in ast.walk(t.test) if isinstance(x, (ast.ListComp, ast.GeneratorExp))), None)
-        ok = comp is not None and len(comp.generators) == 1 and norm(comp.generators[0].iter).endswith(".files") and not comp.generators[0].ifs
+    conts = [n for n in walk(f.node) if isinstance(n, ast.Continue)]
+    n_found = 0
+    for cont in conts:
+        facts = q.facts_at(f, cont)
+        pred = None
+        for cd, pol in facts:
+            inner = cd
+            expr, comp = _selection_expr(ctx, f, inner)
+            if comp is not None:
+                pred = (cd, pol, expr, comp)
+        if pred is None:
+            continue
+        n_found += 1
+        cd, pol, expr, comp = pred
+        fl = [(norm(c_), p_) for c_, p_ in facts]
+        ctx.check(("skip_notarget", True) in fl, "R09.4", f, cont, "folder skip only when skipping is allowed", "a folder can be skipped although skip_notarget is False")
+        ok = len(comp.generators) == 1 and not comp.generators[0].ifs
         results = {}
         if ok:
             var = comp.generators[0].target.id
             for sel in ((False, False), (True, False), (False, True), (True, True)):
-                vals = []
-                for s in sel:
-                    vals.append(_eval_elem(comp.elt, var, s))
+                vals = [_eval_elem(comp.elt, var, s_) for s_ in sel]
                 if any(v is None for v in vals):
                     ok = False
                     break
-                results[sel] = _eval_outer(t.test, comp, vals)
-                if results[sel] is None:
+                v = _eval_outer(expr, comp, vals)
+                if v is None:
                     ok = False
                     break
+                # the folder is skipped when the fact (cd, pol) holds; cd is `expr` itself or a call returning it
+                results[sel] = (v == pol)
             if ok:
                 want = {(False, False): True, (True, False): False, (False, True): False, (True, True): False}
                 ok = results == want
-        ctx.check(bool(ok), "R09.4", f, t, "folder skipped iff none of its members is selected",
-                  f"the folder-skip predicate `{norm(t.test)}` is not 'no member of the folder is selected' (truth table {results}): a partially selected folder is skipped and its selected members are silently not delivered")
-        idk = any(isinstance(x, ast.Attribute) and x.attr == "id" for x in ast.walk(t.test))
-        ctx.check(idk, "R09.4", f, t, "folder skip looks members up by id", "the folder-skip predicate does not look members up by member.id")
+        ctx.check(bool(ok), "R09.4", f, cont, "folder skipped iff none of its members is selected",
+                  f"the folder-skip predicate `{norm(cd)}` (taken {'true' if pol else 'false'}) is not 'no member of the folder is selected' (skip decisions for "
+                  f"(first selected, second selected) = {results}): a partially selected folder is skipped and its selected members are silently not delivered")
+        idk = any(isinstance(x, ast.Attribute) and x.attr == "id" for x in ast.walk(comp))
+        ctx.check(idk, "R09.4", f, cont, "folder skip looks members up by id", "the folder-skip predicate does not look members up by member.id")
+    ctx.floor("R09.4", n_found, 2, "folder-skip tests (sequential and parallel branch)")
     c06.r06_5(ctx, rule="R09.4")
 
 
